@@ -109,11 +109,15 @@ impl Axecutor {
                 None => format!("{:#x}", entry.target),
             };
 
+            // Returns can outnumber calls (e.g. push + ret), which drives the level negative; such
+            // entries are rendered without indentation instead of casting to a huge usize
+            let indent = "  ".repeat(entry.level.max(0) as usize);
+
             // If we have a jump, we count how many of the next are equal and then write e.g. x10 instead of 10 times the same line
             if entry.count > 1 {
                 trace.push_str(&format!(
                     "{}{}: {} => {} ({} times)\n",
-                    "  ".repeat(entry.level as usize),
+                    indent,
                     instruction_symbol,
                     instruction,
                     target_symbol,
@@ -122,7 +126,7 @@ impl Axecutor {
             } else {
                 trace.push_str(&format!(
                     "{}{}: {} => {}\n",
-                    "  ".repeat(entry.level as usize),
+                    indent,
                     instruction_symbol,
                     instruction,
                     target_symbol,
